@@ -44,6 +44,9 @@ def if_fn(
     return expander(arg2).strip()
 
 
+NUMERIC_STRING_RE = re.compile(r"^[+-]?(\d+(\.\d*)?|\.\d+)([eE][+-]?\d+)?$")
+
+
 def ifeq_fn(
     ctx: "Wtp", fn_name: str, args: list[str], expander: Callable[[str], str]
 ) -> str:
@@ -52,7 +55,18 @@ def ifeq_fn(
     arg1: str = args[1] if len(args) >= 2 else ""
     arg2: str = args[2] if len(args) >= 3 else ""
     arg3: str = args[3] if len(args) >= 4 else ""
-    if expander(arg0).strip() == expander(arg1).strip():
+    v0 = expander(arg0).strip()
+    v1 = expander(arg1).strip()
+    equal = v0 == v1
+    if (
+        not equal
+        and NUMERIC_STRING_RE.match(v0) is not None
+        and NUMERIC_STRING_RE.match(v1) is not None
+    ):
+        # "If both strings are valid numerical values, the strings are
+        # compared numerically" ({{#ifeq: 01 | 1 | equal }})
+        equal = float(v0) == float(v1)
+    if equal:
         return expander(arg2).strip()
     return expander(arg3).strip()
 
